@@ -35,7 +35,7 @@ from ..cfg import explore
 from ..rules import node_calls, event_facts, check_take_and_clear, settle_sites
 from ..mutate import mutate, remove_stmts, replace_expr, replace_stmt, parse_stmt, parse_expr
 from ..model import AnalysisError
-from ..x_guardflow import ClassEffects, guard_facts, has, fold_cfg, UNKNOWN, expand_expr
+from ..x_guardflow import ClassEffects, guard_facts, has, fold_cfg, UNKNOWN, expand_expr, resolve_at, reaching_value, missing_effect
 from ..x_iostream import read_end_mode
 
 TECHNIQUE = "must-pass-through on the CFG, finite-domain folding of the position predicate, exception-escape fixpoint, paired-update and take-and-clear lints"
@@ -210,7 +210,7 @@ def find_read_pos(ck):
             finds = [st for st in q.walk_body(fi.node) if isinstance(st, ast.Assign) and isinstance(st.value, ast.Call) and q.call_attr(st.value) in ("find", "index") and q.receiver(st.value) == "self._read_buffer" and st.value.args and q.dotted(st.value.args[0]) == "self._read_delimiter"]
             ck.need(len(finds) == 1 and isinstance(finds[0].targets[0], ast.Name), "delimiter search is not 'loc = self._read_buffer.find(self._read_delimiter)'")
             lv = finds[0].targets[0].id
-            e = subst(node.ast.value)
+            e = resolve_at(ck.repo, fi, node.ast.value, node)
             ok = True
             for l in (0, 3):
                 for d in (b"a", b"ab", b"abc"):
@@ -447,11 +447,11 @@ def mode_fields(ck) -> List[str]:
     frp = repo.func(IO, B + "._find_read_pos")
     # fields that *select* the read mode: loaded inside a branch condition of _find_read_pos
     loaded = set()
-    for t in q.walk_body(frp.node):
-        if isinstance(t, (ast.If, ast.While, ast.IfExp)):
-            for x in ast.walk(t.test):
-                if isinstance(x, ast.Attribute) and isinstance(x.ctx, ast.Load) and q.dotted(x) and q.dotted(x).count(".") == 1:
-                    loaded.add(q.dotted(x))
+    for tn in frp.cfg.stmt_nodes(lambda n: n.kind == "test"):
+        te = resolve_at(repo, frp, tn.ast, tn)
+        for x in ast.walk(te):
+            if isinstance(x, ast.Attribute) and isinstance(x.ctx, ast.Load) and q.dotted(x) and q.dotted(x).count(".") == 1:
+                loaded.add(q.dotted(x))
     cons = repo.func(IO, B + "._consume")
     shrunk = set()
     for n in q.walk_body(cons.node):
@@ -568,7 +568,10 @@ def finish_read(ck):
         ck.ob("C11.finish-read", fi, c, ("@res", True) in ef[node.id], "a result is computed on every path before the future is resolved")
     # swap back
     switch = fi.cfg.stmt_nodes(lambda m: m.kind == "stmt" and isinstance(m.ast, ast.Assign) and "self._user_read_buffer" in q.assigned_paths(m.ast) and isinstance(m.ast.value, ast.Constant) and m.ast.value.value is False)
-    ck.ob("C11.user-buffer-restore", fi, fi.node, len(switch) >= 1, "_finish_read leaves caller-buffer mode (_user_read_buffer = False)", construct="_user_read_buffer = False in _finish_read")
+    if switch:
+        ck.ob("C11.user-buffer-restore", fi, fi.node, True, "_finish_read leaves caller-buffer mode (_user_read_buffer = False)")
+    else:
+        missing_effect(ck, "C11.user-buffer-restore", fi, eff, {"self._user_read_buffer"}, "_finish_read leaves caller-buffer mode (_user_read_buffer = False)", "_user_read_buffer = False in _finish_read")
     ef = event_facts(
         fi,
         {
@@ -644,8 +647,15 @@ def consume(ck):
     loc = _params(fi)[0]
     decs = fi.cfg.stmt_nodes(lambda m: m.kind == "stmt" and isinstance(m.ast, ast.AugAssign) and isinstance(m.ast.op, ast.Sub) and q.dotted(m.ast.target) == "self._read_buffer_size")
     dels = fi.cfg.stmt_nodes(lambda m: m.kind == "stmt" and isinstance(m.ast, ast.Delete) and "self._read_buffer[]" in q.assigned_paths(m.ast))
-    ck.ob("C11.consume-pair", fi, fi.node, len(decs) >= 1, "_consume decreases _read_buffer_size", construct="size decrement in _consume")
-    ck.ob("C11.consume-pair", fi, fi.node, len(dels) >= 1, "_consume deletes the consumed bytes from the read buffer", construct="deletion in _consume")
+    ceff = ClassEffects(ck.repo, FAMILY)
+    if decs:
+        ck.ob("C11.consume-pair", fi, fi.node, True, "_consume decreases _read_buffer_size")
+    else:
+        missing_effect(ck, "C11.consume-pair", fi, ceff, {"self._read_buffer_size"}, "_consume decreases _read_buffer_size", "size decrement in _consume")
+    if dels:
+        ck.ob("C11.consume-pair", fi, fi.node, True, "_consume deletes the consumed bytes from the read buffer")
+    else:
+        missing_effect(ck, "C11.consume-pair", fi, ceff, {"self._read_buffer"}, "_consume deletes the consumed bytes from the read buffer", "deletion in _consume")
     for m in decs:
         ck.ob("C11.consume-pair", fi, m.ast, q.dotted(m.ast.value) == loc, "_read_buffer_size shrinks by exactly loc")
     for m in dels:
@@ -764,6 +774,31 @@ def fill(ck):
         v = m.ast.value
         ok = isinstance(v, ast.Subscript) and isinstance(v.slice, ast.Slice) and q.dotted(v.slice.lower) == "self._read_buffer_size" and v.slice.upper is None and "self._read_buffer" in {q.dotted(x) for x in ast.walk(v.value)}
         ck.ob("C11.fill-pair", fi, m.ast, ok, "in caller-buffer mode the fd reads into the buffer starting at _read_buffer_size (after the bytes already received)")
+    # the buffer limit refuses only what exceeds max_buffer_size
+    fulls = fi.cfg.stmt_nodes(lambda m: m.kind == "stmt" and isinstance(m.ast, ast.Raise) and m.ast.exc is not None and "StreamBufferFullError" in q.unparse(m.ast.exc))
+    for m in fulls:
+        # the refusal block is straight-line (log, close, raise): read the facts at its first statement,
+        # before close() - which may legitimately change the buffer - invalidates them
+        first = m
+        while True:
+            ps = [(fi.cfg.nodes[p_], k_) for p_, k_ in fi.cfg.pred[first.id]]
+            if len(ps) == 1 and ps[0][1] == "next" and ps[0][0].kind == "stmt":
+                first = ps[0][0]
+            else:
+                break
+        rel = [(t, p) for t, p in gf[first.id] if not t.startswith("@") and "self.max_buffer_size" in t and "self._read_buffer_size" in t]
+        bad = []
+        for s_ in range(0, 5):
+            for mx in range(0, 5):
+                try:
+                    hold = bool(rel) and all(bool(q.fold(ast.parse(t, mode="eval").body, {"self._read_buffer_size": s_, "self.max_buffer_size": mx})) == p for t, p in rel)
+                except q.NotFoldable as ex:
+                    raise AnalysisError("cannot evaluate the read buffer limit guard: %s" % ex)
+                if hold != (s_ > mx):
+                    bad.append("buffered=%d max=%d" % (s_, mx))
+        if not rel:
+            raise AnalysisError("the StreamBufferFullError raise in _read_to_buffer is not guarded by a comparison of _read_buffer_size with max_buffer_size that can be recognised")
+        ck.ob("C11.buffer-limit", fi, m.ast, not bad, "incoming data is refused (stream closed, StreamBufferFullError) only when the buffered amount exceeds max_buffer_size; data that exactly fills the buffer is delivered%s" % ((" - differs at " + ", ".join(bad[:4])) if bad else ""))
     # EOF (read_from_fd returned 0) closes the stream; "nothing to read" (None) does not
     closes = fi.cfg.stmt_nodes(lambda m: m.kind == "stmt" and any(q.is_call(c, "self.close") and not c.args and not c.keywords for c in q.calls(m.ast)))
     eof_close = False
@@ -854,8 +889,28 @@ def read_into(ck):
     # consumed prefix deleted, remainder saved - only on the 'enough buffered' path, in this order
     dn = fi.cfg.stmt_nodes(dele)
     sn = fi.cfg.stmt_nodes(save)
-    ck.ob("C11.read-into-swap", fi, fi.node, len(dn) >= 1, "the bytes copied out of the internal buffer are deleted from it", construct="delete copied prefix in read_into")
-    ck.ob("C11.read-into-swap", fi, fi.node, len(sn) >= 1, "the remainder of the internal buffer is saved for after the read", construct="save remainder in read_into")
+    swap_ids = {x.id for x in fi.cfg.stmt_nodes(swap)}
+    after_swap = set()
+    work = list(swap_ids)
+    while work:
+        x_ = work.pop()
+        for y_, _k in fi.cfg.succ[x_]:
+            if y_ not in after_swap:
+                after_swap.add(y_)
+                work.append(y_)
+
+    def before_swap(c):
+        # the hand-over of buffered bytes has to happen before the buffers are swapped
+        return any(m.id not in after_swap for m in fi.cfg.nodes_for(c))
+
+    if dn:
+        ck.ob("C11.read-into-swap", fi, fi.node, True, "the bytes copied out of the internal buffer are deleted from it")
+    else:
+        missing_effect(ck, "C11.read-into-swap", fi, eff, {"self._read_buffer"}, "the bytes copied out of the internal buffer are deleted from it", "delete copied prefix in read_into", only_calls=before_swap)
+    if sn:
+        ck.ob("C11.read-into-swap", fi, fi.node, True, "the remainder of the internal buffer is saved for after the read")
+    else:
+        missing_effect(ck, "C11.read-into-swap", fi, eff, {"self._after_user_read_buffer"}, "the remainder of the internal buffer is saved for after the read", "save remainder in read_into", only_calls=before_swap)
     for m in dn:
         t = m.ast.targets[0]
         ok = isinstance(t.slice, ast.Slice) and t.slice.lower is None and q.dotted(t.slice.upper) == nn
@@ -893,6 +948,7 @@ def run(ck):
     ck.rule("C11.consume-pair", "_consume: copy [:loc], then delete [:loc] and decrease the size by loc, together and once; empty only for loc == 0")
     ck.rule("C11.consume-only-shrinker", "_consume (called only by _finish_read) is the only code that removes bytes from the read buffer, besides read_into's hand-over")
     ck.rule("C11.fill-pair", "_read_to_buffer: appended bytes = first n of the chunk, size += n, n = read_from_fd's count; caller-buffer reads land at offset _read_buffer_size")
+    ck.rule("C11.buffer-limit", "_read_to_buffer refuses incoming data exactly when _read_buffer_size > max_buffer_size (guard folded over a grid)")
     ck.rule("C11.eof-closes", "_read_to_buffer closes the stream exactly on EOF (0) and reports 'no progress' only for None/0")
     ck.rule("C11.read-into-swap", "read_into: copy buffered bytes, delete the copied prefix, save the remainder, then swap buffers and describe the new buffer, all before reading")
     find_read_pos(ck)
@@ -1049,6 +1105,7 @@ MUTANTS = [
     ("_consume forgets the size", _in(B + "._consume", remove_stmts(lambda st: isinstance(st, ast.AugAssign))), "C11.consume-pair"),
     ("_consume deletes before copying", _in(B + "._consume", _consume_delete_first), "C11.consume-pair"),
     ("EOF treated like 'nothing to read' (if not bytes_read: return 0)", _in(B + "._read_to_buffer", replace_stmt(lambda st: isinstance(st, ast.If) and _src(st.test) == "bytes_read is None", lambda st: [ast.If(test=parse_expr("not bytes_read"), body=[parse_stmt("return 0")], orelse=[])])), "C11.eof-closes"),
+    ("seeded C11-adv2: buffer limit refuses data that exactly fills the buffer (>=)", _in(B + "._read_to_buffer", replace_expr(lambda n: isinstance(n, ast.Compare) and "max_buffer_size" in _src(n) and isinstance(n.ops[0], ast.Gt), lambda n: ast.Compare(left=n.left, ops=[ast.GtE()], comparators=n.comparators))), "C11.buffer-limit"),
     ("_read_to_buffer appends the whole chunk", _in(B + "._read_to_buffer", replace_expr(lambda n: isinstance(n, ast.Subscript) and isinstance(n.slice, ast.Slice) and _src(n.slice.upper or ast.Constant(value=0)) == "bytes_read", lambda n: n.value)), "C11.fill-pair"),
     ("caller-buffer read overwrites received bytes", _in(B + "._read_to_buffer", replace_expr(lambda n: isinstance(n, ast.Subscript) and isinstance(n.slice, ast.Slice) and _src(n.slice.lower or ast.Constant(value=0)) == "self._read_buffer_size", lambda n: n.value)), "C11.fill-pair"),
     ("read_into keeps the copied prefix in the internal buffer", _in(B + ".read_into", remove_stmts(lambda st: isinstance(st, ast.Delete))), "C11.read-into-swap"),
